@@ -44,6 +44,8 @@ func main() {
 		os.Exit(2)
 	}
 	switch os.Args[1] {
+	case "funcs":
+		os.Exit(funcsCmd(os.Args[2:]))
 	case "explore":
 		explore(os.Args[2:])
 	case "check":
@@ -160,4 +162,15 @@ func explore(args []string) {
 	res.Funcs = nil
 	b, _ := json.MarshalIndent(res, "", " ")
 	fmt.Println(string(b))
+}
+
+// funcsCmd prints every repository function of the given patterns with its SSA instruction count (coverage reports).
+func funcsCmd(args []string) int {
+	e, err := loadEngine(args)
+	if err != nil {
+		fmt.Println(err)
+		return 2
+	}
+	symgo.WriteJSON("/dev/stdout", e.RepoFunctions())
+	return 0
 }
